@@ -60,6 +60,7 @@ pub struct Cfg {
     pub target_os: Vec<String>,
     pub swift_default_decorators: Vec<String>,
     pub swift_default_generic_constraints: Vec<String>,
+    pub swift_codablevoid_constraints: Vec<String>,
     pub go_uppercase_acronyms: Vec<String>,
     pub go_no_pointer_slice: bool,
 }
@@ -99,6 +100,7 @@ pub fn make_language(lang: Lang, cfg: &Cfg) -> Box<dyn Language> {
             default_decorators: cfg.swift_default_decorators.clone(),
             default_generic_constraints: GenericConstraints::from_config(cfg.swift_default_generic_constraints.clone()),
             multi_file: cfg.multi_file,
+            codablevoid_constraints: cfg.swift_codablevoid_constraints.clone(),
             no_version_header: !cfg.header,
             ..Default::default()
         }),
